@@ -534,7 +534,7 @@ def c17_cases(tier, seed):
     schemes = [b"http", b"https", b"ftp", b"httpx"]
     ports = [None, b"80"]
     hostsets = [[]]
-    names = [b"com", b"a", b"www"]
+    names = [b"com", b"a", b"www", b"Www"]
     for n in (1, 2, 3):
         for combo in itertools.product(names, repeat=n):
             hostsets.append(list(combo))
